@@ -124,6 +124,10 @@ def render_func(prog, fname):
                 lines.append(f"    {r} = dds.keep({', '.join([pexpr, nm] + args)})")
         elif t == "load":
             lines.append(f"    {r} = dds.load({it['path']!r})")
+        elif t == "eval":
+            g = prog["funcs"][it["f"]]
+            nm = _ref_name(prog, cur, g["mod"], it["f"], it.get("form", "direct"))
+            lines.append(f"    {r} = dds.eval({nm})")
         elif t == "ext":
             # behaviour of non-accepted code is by design not tracked: its value never flows into the result
             lines.append(f"    {r} = extlib.ext_fn() and None")
@@ -166,14 +170,16 @@ def _imports_for(prog, m):
             if t == "var":
                 tm = prog["vars"][it["name"]]["mod"]
                 nm = it["name"]
-            elif t in ("call", "ho", "keep"):
+            elif t in ("call", "ho", "keep", "eval"):
                 tm = prog["funcs"][it["f"]]["mod"]
                 nm = it["f"]
             else:
                 continue
             if tm == m:
                 continue
-            form = it.get("form", "direct") if t != "keep" else "from"
+            form = it.get("form", "direct") if t != "keep" else it.get("form", "from")
+            if t == "keep" and form == "direct":
+                form = "from"
             if form in ("direct", "from"):
                 froms.add((tm, nm))
             elif form == "alias":
